@@ -39,7 +39,8 @@ class DeltaImputer(EagerImputer):
             if first:  # Skip first as this one has a delta of 0
                 first = False
                 continue
-            dv = tuple(vector+np.array(dv_delta))
+            # Design vectors of this existence pattern may use less than all design variables
+            dv = tuple((vector+np.array(dv_delta))[:design_vectors.shape[1]])
 
             # Check if design vector exists
             if dv in dv_map:
